@@ -7,7 +7,7 @@ use ddnnife::Ddnnf;
 
 const COMMANDS: &[&str] = &["count", "sat", "core", "enum", "random", "atomic", "atomic-cross", "t-wise", "clause-update", "undo-update", "save-ddnnf", "save-cnf", "exit", "bogus"];
 const KEYWORDS: &[&str] = &["a", "assumptions", "v", "variables", "l", "limit", "s", "seed", "p", "path", "f", "fitness", "t", "total-features", "add", "rmv"];
-const VALUES: &[&str] = &["1", "-2", "3", "0", "9", "-2147483648", "2147483647", "99999999999", "1..3", "2..", "-1..1", "3..1", "..5", "1.5", "-", "--1", "abc", "1e3", "-0", "+1", "1..99999999999", "-2147483648..2147483647", "5..5"];
+const VALUES: &[&str] = &["1", "-2", "3", "0", "9", "-2147483648", "2147483647", "99999999999", "1..3", "2..", "-1..1", "3..1", "..5", "1.5", "-", "--1", "abc", "1e3", "-0", "+1", "1..99999999999", "-2147483648..2147483647", "5..5", "0.5", "1..3"];
 
 fn is_err(s: &str) -> bool { let b = s.as_bytes(); b.len() >= 3 && b[0] == b'E' && (b'1'..=b'6').contains(&b[1]) && b[2] == b' ' }
 
@@ -201,7 +201,7 @@ pub fn c13(a: &Args) {
         run_line(&mut out, &mut s, "", &save_dir);
         run_line(&mut out, &mut s, "   ", &save_dir);
         // the inputs of the repaired defects
-        for l in ["clause-update t 5", "count a -2147483648", "enum l 1", "enum l 18446744073709551615", "clause-update t 5 add 1 2", "clause-update total-features 0", "clause-update t 2..", "count a -2147483648..2147483647", "clause-update t 1..2147483647 add 1", "count a 1..2147483647 v 1"] { run_line(&mut out, &mut s, l, &save_dir); }
+        for l in ["clause-update t 5", "count a -2147483648", "enum l 1", "enum l 18446744073709551615", "clause-update t 5 add 1 2", "clause-update total-features 0", "clause-update t 2..", "count a -2147483648..2147483647", "clause-update t 1..2147483647 add 1", "count a 1..2147483647 v 1", "count a 1..2 v 1..2", "t-wise l 1 f 0.5 0.5 0.5 0.5", "count a 1 v 1", "sat v 2 2"] { run_line(&mut out, &mut s, l, &save_dir); }
         out.sample(format!("model n={} : {}", file.n, file.lines.join(" / ")));
     }
     out.finish("nnf-loaded models: every line `command t1 t2` (quick: the two-token level thinned to a quarter) over 14 commands x 37 tokens (all parameter keywords in both spellings, numbers, ranges, 0, out-of-range and extreme numbers, malformed numbers, a path), random longer lines with 1..3 parameter groups (duplicates injected), printable junk, empty lines, the inputs of the repaired defects; each reply: no panic, result or E1..E6, rejected line leaves the model unchanged, count/sat answers of the well-formed subset vs truth table, parameter groups permuted; every reply compared with the Lean model of handle_stream_msg (exact text where literal, code otherwise) on one long-lived instance (cursor state included). Lines asking `random`/`t-wise` for more than 10^4 / t>3 samples are skipped (resource question, not modelled).");
